@@ -937,6 +937,7 @@ func TestCLI(t *testing.T) {
 	}, func(c cliCase) (o pbt.Outcome, err error) {
 		o.Class("cmd=%s", c.Cmd)
 		if c.Cmd == "orf" {
+			o.Class("style=%s", c.Orf.Style)
 			in := cli.TempFile(dir, ".fa", cli.Fasta(c.Orf.Seqs))
 			args := []string{"orf", "-i", in}
 			if c.Orf.Reverse {
@@ -1070,6 +1071,7 @@ func TestCLI(t *testing.T) {
 		}
 		o.NonTrivial = (w >= 2 && len(pc.Seqs) >= 4) || misframed
 		o.Class("threads=%d", w)
+		o.Class("style=%s", pc.Style)
 		o.Class("reverse=%v cutend=%v", pc.Reverse, pc.CutEnd)
 		if len(pc.Orfs) == 0 {
 			o.Class("refs=none")
